@@ -124,7 +124,8 @@ def rand_side(rng, shape, names, plain=0.15):
 
 
 def rand_names(rng, weights=(1, 1, 2, 2, 3)):
-    return sorted(rng.sample(["q0", "q1", "q2"], rng.choice(weights)))
+    # (q10 sorts before q2 as a string and after it as a name: alignment has to go by the number)
+    return sorted(rng.sample(["q0", "q1", "q2", "q10"] if rng.random() < 0.3 else ["q0", "q1", "q2"], rng.choice(weights)), key=lambda n: int(n[1:]))
 
 
 def gen_identity(tier, rng):
@@ -141,7 +142,7 @@ def gen_identity(tier, rng):
 
 
 @check("C05", "divmod.terminates_identity", gen_identity, functions=("numpoly.poly_divmod", "numpoly.poly_function.divide.divmod.get_division_candidate"),
-       note="bounded: dividend/divisor with <=3 terms, 1-3 indeterminates, exponents<=3, int64/float64 coefficients incl. zero "
+       note="bounded: dividend/divisor with <=3 terms, 1-3 indeterminates from q0,q1,q2,q10, exponents<=3, int64/float64 coefficients incl. zero "
             "elements, 10 broadcasting shape pairs over (),(1,),(2,),(2,1),(1,2),(2,2), number/array operands, plus 10 fixed pairs "
             "(q0*q1**2 / (q1**2-2*q0), ..., two with coefficients near the float64 overflow threshold); termination = returns within the per-input limit, loop state never repeats, "
             f"<= {MAX_ROUNDS} candidate rounds; identity dividend == q*divisor + r exact or to relative 1e-9 per coefficient")
